@@ -112,6 +112,13 @@ def index_only(call: ast.AST, fn: ast.FunctionDef) -> bool:
     return False
 
 
+def used_as_branch_test(call: ast.AST) -> bool:
+    p, child = getattr(call, '_parent', None), call
+    while isinstance(p, (ast.BoolOp, ast.UnaryOp, ast.Compare)):
+        child, p = p, getattr(p, '_parent', None)
+    return isinstance(p, (ast.If, ast.IfExp, ast.While)) and p.test is child
+
+
 def constructs(fn: ast.FunctionDef):
     """(node, kind, text) for every graph-cutting construct directly in fn (nested defs included)."""
     out = []
@@ -133,6 +140,11 @@ def constructs(fn: ast.FunctionDef):
             elif nm in ('histc', 'histogram', 'histogramdd') or (nm == 'bincount' and (any(k.arg == 'weights' for k in n.keywords) or
                                                                                    len(n.args) >= (3 if (dotted_name(f) or '').startswith('torch.') else 2))):
                 out.append((n, 'no-derivative', ast.unparse(n)))
+            elif nm in ('any', 'all') and used_as_branch_test(n) and any(
+                    isinstance(x, ast.Compare) and len(x.ops) == 1 and isinstance(x.ops[0], (ast.Eq, ast.NotEq)) and any(
+                        isinstance(y, ast.Constant) and isinstance(y.value, (int, float)) and not isinstance(y.value, bool) for y in [x.left] + x.comparators)
+                    for x in ast.walk(n)):
+                out.append((n, 'value-branch', ast.unparse(n)))
             elif nm in ('register_hook', 'register_full_backward_hook', 'register_backward_hook'):
                 out.append((n, 'gradient-hook', ast.unparse(n)))
             elif nm == 'requires_grad_' and n.args and isinstance(n.args[0], ast.Constant) and n.args[0].value is False:
@@ -447,6 +459,20 @@ def run(ctx, rep):
                 rep.bad('C12.D', key, W, {'construct': text[:100], 'kind': kind},
                         f"{qual}: `{text[:70]}` is piecewise constant: its derivative is zero, so everything the rounded value depends on stops receiving a gradient through it "
                         f"while the returned value still changes with those parameters")
+                continue
+            if kind == 'value-branch':
+                cmp_ = next(x for x in ast.walk(node) if isinstance(x, ast.Compare))
+                operand = next((y for y in [cmp_.left] + cmp_.comparators if not isinstance(y, ast.Constant)), None)
+                ci_ = owner.get(id(fn))
+                from sa.util import backward_slice as _bs
+                from_object = operand is not None and any(isinstance(y, ast.Attribute) and isinstance(y.value, ast.Name) and y.value.id == 'self' for e_ in _bs(operand, defs) for y in ast.walk(e_))
+                if operand is None or shape_derived(operand, defs) or literal_only(operand) or not (may_be_tensor(operand, fn, ci_) or from_object):
+                    rep.ok('C12.D', key, W, {'class': 'the tested value is not a tensor computed from parameters'})
+                    continue
+                rep.bad('C12.D', key, W, {'construct': text[:100], 'kind': kind},
+                        f"{qual}: `{text[:60]}` chooses the formula by testing a computed value for EQUALITY with a constant: exactly at that value (a relative rate of 1.0 is where "
+                        f"every run starts) the branch that leaves the parameter out of the graph is taken — the returned value still depends on the parameter, its gradient is "
+                        f"missing (None) or zero")
                 continue
             if kind == 'no-derivative':
                 ws = [k.value for k in node.keywords if k.arg == 'weights'] or list(node.args[1:]) or list(node.args[:1])
